@@ -54,7 +54,7 @@ func C09(c *core.Ctx) {
 			}
 		}
 	}
-	c.Floor("R9.1", "SendPacket call sites", nSites, 3)
+	c.Floor("R9.1", "SendPacket call sites", nSites, 2)
 
 	// ---- R9.2: inbound pipelines.
 	for _, name := range []string{"processIncomingInterest", "processIncomingData"} {
